@@ -1,3 +1,4 @@
+import depgraphs
 import histories
 import layouts
 
@@ -5,6 +6,10 @@ import layouts
 def warm_layouts():
     layouts.load_cases("Layouts_quick.cfg")
     layouts.load_cases("Layouts_chain.cfg")
+    import common as C
+    for m, c in [("History", "History_c06_quick.cfg"), ("History", "History_c07_quick.cfg"),
+                 ("DepGraphs", "DepGraphs_cycles.cfg"), ("DepGraphs", "DepGraphs_scopes.cfg")]:
+        C.run_tlc(m, c, workers=12, timeout=7200)
 
 
 CHECKS = {
@@ -15,5 +20,6 @@ CHECKS = {
     "C06": histories.check_c06,
     "C07": histories.check_c07,
     "C08": layouts.check_c08,
+    "C16": depgraphs.check_c16,
 }
 WARM = [warm_layouts]
